@@ -27,6 +27,11 @@ import (
 )
 
 var interpolateTypeCastMapping = map[tree.Path]interp.Cast{
+	servicePath("blkio_config", "weight"):                          toInt,
+	servicePath("build", "secrets", tree.PathMatchList, "mode"):    toInt,
+	servicePath("build", "ulimits", tree.PathMatchAll):             toInt,
+	servicePath("build", "ulimits", tree.PathMatchAll, "hard"):     toInt,
+	servicePath("build", "ulimits", tree.PathMatchAll, "soft"):     toInt,
 	servicePath("configs", tree.PathMatchList, "mode"):             toInt,
 	servicePath("cpu_count"):                                       toInt64,
 	servicePath("cpu_percent"):                                     toFloat,
@@ -60,6 +65,7 @@ var interpolateTypeCastMapping = map[tree.Path]interp.Cast{
 	servicePath("ulimits", tree.PathMatchAll, "hard"):              toInt,
 	servicePath("ulimits", tree.PathMatchAll, "soft"):              toInt,
 	servicePath("volumes", tree.PathMatchList, "read_only"):        toBoolean,
+	servicePath("volumes", tree.PathMatchList, "tmpfs", "mode"):    toInt,
 	servicePath("volumes", tree.PathMatchList, "volume", "nocopy"): toBoolean,
 	iPath("networks", tree.PathMatchAll, "external"):               toBoolean,
 	iPath("networks", tree.PathMatchAll, "internal"):               toBoolean,
